@@ -297,6 +297,27 @@ class C12(Property):
         spec = copy.deepcopy(case)
         invs = spec.pop('inv')
         kinds = []
+        # a later invalidation writing the same single slot (origin name, label identifier, one origin attribute ...)
+        # overwrites an earlier one: only the last of each slot is in effect
+        slots = {}
+        for n, inv in enumerate(invs):
+            slot = None
+            if inv.get('pos') in ('origin-name', 'sul-id', 'hdr-id', 'channel-name'):
+                slot = inv['pos']
+            elif inv['k'] in ('int-range', 'nonfinite-int'):
+                slot = 'origin-attr:' + inv['attr']
+            elif inv['k'] in ('sul-seq', 'sul-id-long'):
+                slot = 'sul-seq' if inv['k'] == 'sul-seq' else 'sul-id'
+            elif inv['k'] == 'hdr-id-long':
+                slot = 'hdr-id'
+            if slot:
+                slots[slot] = n
+        invs = [inv for n, inv in enumerate(invs)
+                if not ((inv.get('pos') in ('origin-name', 'sul-id', 'hdr-id', 'channel-name') and slots[inv['pos']] != n)
+                        or (inv['k'] in ('int-range', 'nonfinite-int') and slots['origin-attr:' + inv['attr']] != n)
+                        or (inv['k'] == 'sul-seq' and slots['sul-seq'] != n)
+                        or (inv['k'] == 'sul-id-long' and slots['sul-id'] != n)
+                        or (inv['k'] == 'hdr-id-long' and slots['hdr-id'] != n))]
         for inv in invs:
             try:
                 apply(spec, inv)
